@@ -89,6 +89,15 @@ def _probe_shape(seq):
     return ()
 
 
+class _NdMeta(type):
+    def __instancecheck__(cls, x):
+        return isinstance(x, (CArr, SArr, SArrT, _np.ndarray))
+
+
+class ndarray(metaclass=_NdMeta):
+    """stands for numpy.ndarray in isinstance tests and type aliases"""
+
+
 class NP(_Stub):
     pi = None  # set below (needs ctx) -> property
 
@@ -96,7 +105,7 @@ class NP(_Stub):
         super().__init__("numpy")
         object.__setattr__(self, "linalg", _Linalg("numpy.linalg"))
         object.__setattr__(self, "newaxis", None)
-        object.__setattr__(self, "ndarray", (CArr, SArr, SArrT))
+        object.__setattr__(self, "ndarray", ndarray)
         object.__setattr__(self, "float64", float)
         object.__setattr__(self, "lib", _np.lib)
 
